@@ -41,3 +41,10 @@ Theorem self_assignment_emptied_refuted :
   dump_var 10 (snd (assign_ri_old st 0 0)) 0 = Some (D 0 [] None [] [] [] []) /\
   dump_var 10 (snd (step st (AssignRI 0 0))) 0 = Some (D 0 [] None [1; 2; 3] [] [] []).
 Proof. vm_compute. repeat split. Qed.
+
+(* 98fccf0  setField with an EXTENSION field: only the singular branch resolved the
+   extension's type descriptor; the repeated branch (msg.Mutable) and the clear branch
+   (msg.Clear) passed the raw descriptor and protoreflect panicked.  Extensions are outside
+   Kinds.v / Store.v (they behave like ordinary fields once the descriptor is resolved); the
+   defect is recorded here and exercised by the `ext-op:*`, `ext-lossless` and `frozen-path:*`
+   probes of harness/cmd/c20. *)
